@@ -464,6 +464,21 @@ def phase_children(c, bindir, hx, child_cases):
             c.violation("wrapper-hang: %s does not terminate when its child (%s after %d answers) dies while the feeder is still writing" % (name, term, k), rep)
         elif rc == 0:
             c.violation("premature-eof-exit-0: %s exits 0 although its child ended (%s) after %d answers of a %d-byte input" % (name, term, k, len(big[name])), rep)
+    # the child cannot even be started (execvp fails: ENOENT, EACCES, a directory): never success, never a hang
+    with tr.Scratch(SCRATCH) as w:
+        noexec = os.path.join(w, "not-executable")
+        open(noexec, "w").write("#!/bin/sh\ncat\n")
+        os.chmod(noexec, 0o644)
+        for name, args, stdin in [(n, a, i) for (n, a, i) in WRAPPERS if not a or n != "cache"] + [("warc_parallel", ["-j", "2"], wp_in)]:
+            for prog in ("/nonexistent/program", noexec, w, ""):
+                rc, out, err = tr.run([os.path.join(bindir, name)] + args + [prog], stdin, timeout=20)
+                c.count(("exec-fails", name, prog), bucket="child/%s/exec-fails" % name)
+                rep = {"wrapper": name, "argv": [name] + args + [prog if prog in ("", "/nonexistent/program") else os.path.basename(prog)], "stdin_hex": hexs(stdin), "status": rc,
+                       "child": "cannot be executed"}
+                if rc == "timeout":
+                    c.violation("wrapper-hang: %s does not terminate when its child cannot be executed (%r)" % (name, prog), rep)
+                elif rc == 0:
+                    c.violation("child-failure-exit-0: %s exits 0 although its child %r could not be executed" % (name, prog), rep)
     # warc_parallel (not one of the three, same Launch/wait machinery): failures must not be success
     for term in ["exit:0", "exit:3", "sig:9", "sig:15"]:
         rc, out, err = tr.run([os.path.join(bindir, "warc_parallel"), "-j", "2", vchild, "-1", term, "drain"], wp_in, timeout=20)
@@ -487,13 +502,21 @@ class _Stop(Exception):
     pass
 
 
-def gen_tool_case(rng, big):
+# read-size plans that sit on the case splits of BufferedStream::write (fits / spill then fits / spill then direct write)
+BOUNDARY_PLANS = [[8192], [8193], [8191, 1], [8191, 2], [4096, 4096], [4096, 4096, 1], [1, 8192], [1, 8191], [9000], [10000], [8192, 8192], [8192, 1, 8192],
+                  [5000, 5000], [8190, 1, 1, 1], [10000, 10000, 10000], [8192, 9000], [1] * 6, [8191, 9999]]
+
+
+def gen_tool_case(rng, big, plan=None):
     """Generate an oracle for the mini filter tool of hx_exit by lazily simulating the
     order of its system calls (generation only: results are never taken from here)."""
     chunk = rng.choice([4096, 10000]) if big else rng.choice([1, 3, 64, 4096])
     fin = rng.choice([b"", b"END", b"\n"]) if not big else rng.choice([b"", b"END", bytes(rng.randrange(256) for _ in range(8200))])
     nreads = rng.randrange(0, 5)
     sizes = [rng.randrange(1, chunk + 1) if big else rng.randrange(1, min(chunk, 40) + 1) for _ in range(nreads)]
+    if plan is not None:
+        chunk, sizes, nreads = 10000, list(plan), len(plan)
+        fin = rng.choice([b"", b"E", bytes(8192), bytes(8193)])
     est = 2 * nreads + 8
     fail_at = rng.choice([None, None] + list(range(est)))
     fail_errno = rng.choice([5, 28, 32])
@@ -684,6 +707,11 @@ def phase_model(c, drv, hx, model_cases, kernel_cases, child_cases, strace_cases
         l, fin = gen_tool_case(c.rng, big=i >= n_small)
         lines.append(l)
         fins.append(fin)
+    for plan in BOUNDARY_PLANS:
+        for rep in range(2 if c.tier == "quick" else 12):
+            l, fin = gen_tool_case(c.rng, True, plan=plan)
+            lines.append(l)
+            fins.append(fin)
     for code in range(256):
         lines.append("WAIT exit:%d" % code)
         fins.append(b"")
@@ -775,6 +803,20 @@ def phase_model(c, drv, hx, model_cases, kernel_cases, child_cases, strace_cases
         mlines.append("WR %s %d %d %d 1 1 exit:0 | %s | %s" % (t.name, cfd, sent, recs, " ".join(outcome_tokens(fsub)), " ".join(outcome_tokens(csub))))
         expect.append((rc_to_status(rc), (fmt_events(fsub), fmt_events(csub), [e[1] for e in bad_ev])))
         meta.append((t, ("wrapper-io",) + tuple(fault), "wrapper-io"))
+    # D8: Launch's status pipe: runs in which the injected fault hit the read of the close-on-exec pipe
+    for t, fault, rc, ev, base_ev in model_cases:
+        if t.kind != "wrapper" or t.name == "warc_parallel" or rc == "timeout" or fault[0] != "read":
+            continue
+        st_reads = [e for e in base_ev if e[0] == "read" and e[2] == 4]
+        if not st_reads:
+            continue
+        sfd = st_reads[0][1]
+        sub = [e for e in ev if e[0] == "read" and e[1] == sfd]
+        if not any(e[3] < 0 for e in sub):
+            continue
+        mlines.append("L 1 %d | %s" % (sfd, " ".join(outcome_tokens(sub))))
+        expect.append((rc_to_status(rc), fmt_events(sub)))
+        meta.append((t, ("launch",) + tuple(fault), False))
     # D5: iostream tools under strace injection: the segmentation of stdout into write(2) calls is the one observed in the
     #     fault-free run; the outcomes are the ones strace reports for the faulted run
     for t, inject, rc, calls, clean_calls in strace_cases:
